@@ -54,6 +54,9 @@ DefStream ==
      wantBeforeOpen |-> FALSE, \* the application reset the stream before its HEADERS were on the wire
      peerBad |-> FALSE,     \* the peer sent stream frames after its own RST_STREAM (its violation; E may react)
      hdrsIn |-> 0,          \* HEADERS frames received on this stream
+     parent |-> 0,          \* stream on which this stream was promised (PUSH_PROMISE received)
+     pushHold |-> FALSE,    \* the application holds a PushPromises handle of this stream
+     blocksIn |-> 0, infoIn |-> 0,   \* complete header blocks received / of which informational (1xx) responses
      inSince |-> 0, inNeed |-> 2]  \* frames handed to E since the cause of a reset (the application's call, else the stream's
                             \* first frame); >= inNeed of them means some raced with E's RST_STREAM still sitting in its codec
 
@@ -363,15 +366,31 @@ Classify(m, f) ==
     ELSE IF x.rstOut > 0 THEN "legal"                                                   \* races with E's reset
     ELSE IF ty = "DATA" /\ x.i \in {"es", "rst"} THEN "stream"
     ELSE IF ty = "DATA" /\ x.i = "idle" THEN "conn"
+    ELSE IF ty = "DATA" /\ m.role = "c" /\ x.blocksIn = x.infoIn THEN "stream"              \* DATA before the final response head: malformed message
     ELSE IF ty = "HEADERS" /\ x.i \in {"es", "rst"} THEN "stream"
     ELSE IF f.hb /\ ~f.hdr.ok THEN "conn"                                               \* header compression failure
     ELSE "legal"
 
+\* A header block that is malformed whatever follows (judged on the fields decoded so far, `pcls`, of a block still awaiting
+\* CONTINUATION): E may give up on the block early - reset the stream and treat the rest of the block as a connection error.
+PKind(c) == IF c \in {":method=GET", ":method=HEAD", ":method=CONNECT", ":method=POST", ":method=OPTIONS", ":method=OTHER"} THEN ":method"
+            ELSE IF c \in {":status=bad", ":status=1xx", ":status=204", ":status=304", ":status=2xx"} THEN ":status"
+            ELSE IF c = ":path=empty" THEN ":path" ELSE c
+PIsPseudo(c) == PKind(c) \in {":method", ":scheme", ":path", ":authority", ":protocol", ":status", ":unknown"}
+PrefixMalformed(m, f) ==
+    LET cls == f.pcls IN
+    \/ \E i \in 1..Len(cls) : cls[i] \in {"upper", "badname", "connspec", "te=other", ":unknown", "badvalue", "cl=bad", ":status=bad"}
+    \/ \E i, j \in 1..Len(cls) : i < j /\ PIsPseudo(cls[j]) /\ (~PIsPseudo(cls[i]) \/ PKind(cls[i]) = PKind(cls[j]))
+    \/ \E i \in 1..Len(cls) : (m.role = "s" \/ f.ty = "PUSH_PROMISE") /\ PKind(cls[i]) = ":status"
+    \/ \E i \in 1..Len(cls) : m.role = "c" /\ f.ty # "PUSH_PROMISE" /\ PKind(cls[i]) \in {":method", ":scheme", ":path", ":authority", ":protocol"}
+
 NoteIn(m, f, l) ==
     LET c == IF m.mustConn \/ m.dead THEN "legal" ELSE Classify(m, f)   \* nothing is judged after the first connection error
-        m1 == IF c = "conn" THEN [Hit(m, "C09.conn_error") EXCEPT !.mustConn = TRUE, !.illegalSeen = TRUE, !.tainted = TRUE]
-              ELSE IF c = "stream" THEN [Hit(m, "C09.stream_error") EXCEPT !.mustStream = m.mustStream \cup {f.sid}, !.illegalSeen = TRUE]
-              ELSE m
+        m0 == IF f.ty \in {"HEADERS", "PUSH_PROMISE", "CONTINUATION"} /\ ~f.eh /\ f.pcls # <<>> /\ PrefixMalformed(m, f)
+              THEN [m EXCEPT !.illegalSeen = TRUE] ELSE m
+        m1 == IF c = "conn" THEN [Hit(m0, "C09.conn_error") EXCEPT !.mustConn = TRUE, !.illegalSeen = TRUE, !.tainted = TRUE]
+              ELSE IF c = "stream" THEN [Hit(m0, "C09.stream_error") EXCEPT !.mustStream = m.mustStream \cup {f.sid}, !.illegalSeen = TRUE]
+              ELSE m0
         m2 == IF f.ty \in {"HEADERS", "PUSH_PROMISE"} /\ ~f.eh /\ f.bad = "" THEN [m1 EXCEPT !.hdrIn = f.sid]
               ELSE IF f.ty = "CONTINUATION" /\ f.eh THEN [m1 EXCEPT !.hdrIn = 0]
               ELSE m1
@@ -430,7 +449,7 @@ StepIn(m, f, l) ==
              x1 == [x EXCEPT !.i = IF x.i = "idle" THEN "open" ELSE x.i]
              m2 == SetS(m1, s, x1)
              m3 == IF ty = "PUSH_PROMISE" /\ ok
-                   THEN [SetS(m2, f.prom, [S(m2, f.prom) EXCEPT !.resR = TRUE, !.inAny = TRUE]) EXCEPT !.maxPeer = Max(m2.maxPeer, f.prom)]
+                   THEN [SetS(m2, f.prom, [S(m2, f.prom) EXCEPT !.resR = TRUE, !.inAny = TRUE, !.parent = s]) EXCEPT !.maxPeer = Max(m2.maxPeer, f.prom)]
                    ELSE m2
          IN m3
     ELSE IF ty = "RST_STREAM" /\ ok /\ s # 0
@@ -446,8 +465,11 @@ StepIn(m, f, l) ==
 
 \* END_STREAM carried by a received header block
 StepInBlockEnd(m, f) ==
-    IF f.hb /\ f.bt = "HEADERS" /\ f.bes
-    THEN LET x == S(m, f.sid) IN SetS(m, f.sid, [x EXCEPT !.i = IF x.i = "open" THEN "es" ELSE x.i])
+    IF f.hb /\ f.bt = "HEADERS"
+    THEN LET x == S(m, f.sid)
+             info == f.hdr.ok /\ f.hdr.status >= 100 /\ f.hdr.status < 200
+         IN SetS(m, f.sid, [x EXCEPT !.i = IF f.bes /\ x.i = "open" THEN "es" ELSE x.i,
+                                     !.blocksIn = x.blocksIn + 1, !.infoIn = x.infoIn + (IF info THEN 1 ELSE 0)])
     ELSE m
 
 \* rd: everything handed over earlier has been processed
@@ -507,6 +529,8 @@ StepApi(m, e, l) ==
     THEN SetS(m, s, [x EXCEPT !.respDrop = TRUE, !.rdead = TRUE, !.recvDrop = TRUE])
     ELSE IF c = "drop_send"
     THEN SetS(m, s, [x EXCEPT !.sendDrop = TRUE])
+    ELSE IF c = "hold_push" THEN SetS(m, s, [x EXCEPT !.pushHold = TRUE])
+    ELSE IF c = "drop_push" THEN SetS(m, s, [x EXCEPT !.pushHold = FALSE])
     ELSE IF c = "set_target_window" THEN [m EXCEPT !.maxTarget = Max(m.maxTarget, e.v)]
     ELSE IF c = "set_initial_window" /\ e.res = "ok"
     THEN Check(m, "C14.local_settings_pending", m.sentSet = <<>>, l, 0, "second local SETTINGS accepted while one is unacknowledged")
@@ -524,8 +548,13 @@ StepApi(m, e, l) ==
 \*   must drop it); never for a stream E reset before it reached the application;
 \* - handed over and not yet released: held as long as ANY handle of the stream exists (a FlowControl clone may still
 \*   release it; h2 returns it when the last reference goes away).
-HeldBy(x) ==
+\* - nothing for a promised stream the application can no longer be handed: every handle of the stream it was promised on is gone.
+Unreachable(m, x) ==
+    x.resR /\ ~x.surfaced /\ x.parent # 0
+    /\ LET p == S(m, x.parent) IN p.surfaced /\ p.recvDrop /\ p.sendDrop /\ ~p.pushHold
+HeldBy(m, x) ==
     IF x.rstOut > 0 /\ ~x.surfaced THEN 0
+    ELSE IF Unreachable(m, x) THEN 0
     ELSE (IF x.recvDrop THEN 0 ELSE Max(0, x.rcvd - x.dlv))
        + (IF x.recvDrop /\ x.sendDrop THEN 0 ELSE Max(0, x.dlv - x.rel))
 
@@ -535,7 +564,7 @@ StepQ(m, e, l) ==
     LET m1 == Check(m, "C14.all_acked", m.owed = <<>> /\ m.pongs = <<>>, l, 0, <<Len(m.owed), Len(m.pongs)>>)
         \* C03: a window the peer exhausted is restored once nothing is held
         heldAll == LET ss == DOMAIN m.st
-                       F[T \in SUBSET ss] == IF T = {} THEN 0 ELSE LET t == CHOOSE t \in T : TRUE IN HeldBy(m.st[t]) + F[T \ {t}]
+                       F[T \in SUBSET ss] == IF T = {} THEN 0 ELSE LET t == CHOOSE t \in T : TRUE IN HeldBy(m, m.st[t]) + F[T \ {t}]
                    IN F[ss]
         respDropped == {s \in DOMAIN m.st : m.st[s].respDrop /\ ~m.st[s].sendDrop /\ m.st[s].rstOut = 0
                                               /\ m.st[s].i # "rst" /\ m.st[s].rcvd > m.st[s].rel}
@@ -545,7 +574,7 @@ StepQ(m, e, l) ==
                          ELSE <<m.rcw, heldAll>>)
               ELSE m1
         stuck == {s \in DOMAIN m.st : /\ m.st[s].zeroed /\ ~m.st[s].rdead /\ ~m.st[s].recvDrop /\ m.st[s].i = "open"
-                                       /\ m.st[s].o # "rst" /\ HeldBy(m.st[s]) = 0}
+                                       /\ m.st[s].o # "rst" /\ HeldBy(m, m.st[s]) = 0}
         m3 == IF \E s \in DOMAIN m.st : m.st[s].zeroed /\ ~m.st[s].rdead /\ ~m.st[s].recvDrop /\ m.st[s].i = "open"
               THEN Check(m2, "C03.stream_leak", stuck = {}, l, IF stuck = {} THEN 0 ELSE CHOOSE s \in stuck : TRUE, stuck)
               ELSE m2
@@ -575,6 +604,7 @@ MarkZeroed(m, f) ==
 ActivePeer(m) ==
     {s \in DOMAIN m.st :
         /\ ~LocallyInit(m, s) /\ s # 0
+        /\ m.st[s].surfaced          \* (a stream not yet handed to the application may already be refused inside E: its RST_STREAM can lag behind)
         /\ m.st[s].i \in {"open", "es"}
         /\ m.st[s].rstOut = 0 /\ m.st[s].o # "rst"
         /\ ~(m.st[s].i = "es" /\ (m.st[s].o = "es" \/ m.st[s].apiEos))
